@@ -1,6 +1,7 @@
 import OH.Props.C07
 import OH.Props.C07E
 import OH.Props.TablesC07
+import OH.Props.ArithC07
 #print axioms OH.Props.C07.C07_normalize_preserves
 #print axioms OH.Props.C07.C07_normalize_preserves_schedule
 #print axioms OH.Props.C07.C07_selector_is_filter
@@ -14,3 +15,11 @@ import OH.Props.TablesC07
 #print axioms OH.Props.C07E.C13_every_parsed_expression
 #print axioms OH.Props.C07E.C13_every_normal_form_prints_and_reparses
 #print axioms OH.Props.TablesC07.C07_frames
+#print axioms OH.Props.ArithC07.year_succ_agree
+#print axioms OH.Props.ArithC07.year_pred_agree
+#print axioms OH.Props.ArithC07.week_succ_agree
+#print axioms OH.Props.ArithC07.week_pred_agree
+#print axioms OH.Props.ArithC07.year_succ_in_frame
+#print axioms OH.Props.ArithC07.year_pred_in_frame
+#print axioms OH.Props.ArithC07.week_succ_in_frame
+#print axioms OH.Props.ArithC07.week_pred_in_frame
